@@ -8,8 +8,8 @@
        rcoef n p x = Σ { c | (c, n, p) ∈ reg x },   scoef k x = d_k
    [seq x y] is this normal-form equality (it is decidable, [seqb]).  Equal
    normal forms have equal Laplace images at EVERY s ([Lval_seq]).  The converse
-   (uniqueness of partial fractions) is the premise [L_injective]; see
-   TimeDomInj.v.
+   (uniqueness of partial fractions) is [L_injective], PROVED for every
+   characteristic-0 field record in TimeDomInj.v (L_injective_char0).
 
    LAWS.  A law is a linear-differential combination
        Σ_j (a_j + b_j·d/dt) x_j  ≡  w            ([lcomb], [law_holds])
@@ -241,7 +241,8 @@ Proof. intros H Hp. rewrite <- (lcomb_transfer s ts xs Hp). apply Lval_seq. exac
 
 (* uniqueness of partial fractions, as a property of the field: a signal whose image vanishes
    outside a finite set is the zero normal form.  Proved for every characteristic-0 field
-   record in TimeDomInj.v when that file is present; otherwise it is the explicit premise. *)
+   record in TimeDomInj.v (L_injective_char0); stated here as a definition because the proof
+   needs the lemmas of this file. *)
 Definition L_injective : Prop :=
   forall (x : sig) (E : list K), (forall s, ~ In s E -> Lval s x = 0) -> seq x szero.
 Lemma seq_zero_diff x y : seq (ssub x y) szero -> seq x y.
